@@ -332,10 +332,14 @@ func (h *hist) opOpen() {
 	if rng.Chance(1, 25) {
 		pos = margintypes.Position_SHORT
 	}
-	lev := h.leverage()
+	h.doOpen(t, coll, bor, amt, pos, h.leverage())
+}
+
+func (h *hist) doOpen(t sdk.AccAddress, coll, bor string, amt *big.Int, pos margintypes.Position, lev sdk.Dec) string {
+	w := h.w
 	msg := &margintypes.MsgOpen{Signer: t.String(), CollateralAsset: coll, CollateralAmount: sdk.NewUintFromBigInt(amt), BorrowAsset: bor, Position: pos, Leverage: lev}
 	if err := msg.ValidateBasic(); err != nil {
-		return // refused before the handler; nothing to compare
+		return "invalid" // refused before the handler; nothing to compare
 	}
 	clpAddr := w.ModuleAddr(clptypes.ModuleName)
 	tb, cb := w.Bal(t, coll), w.Bal(clpAddr, coll)
@@ -356,6 +360,7 @@ func (h *hist) opOpen() {
 		}
 		h.out.Emit(fmt.Sprintf("chk c13.pair tag=tx.open.pair %s %s", coll, bor), "true", "chk.pair", false)
 	}
+	return res
 }
 
 func (h *hist) pickMtp() *margintypes.MTP {
@@ -371,7 +376,7 @@ func (h *hist) isAdmin(a sdk.AccAddress) bool {
 }
 
 func (h *hist) opClose() {
-	w, rng := h.w, h.rng
+	rng := h.rng
 	m := h.pickMtp()
 	var signer sdk.AccAddress
 	var id uint64
@@ -384,6 +389,11 @@ func (h *hist) opClose() {
 			signer = h.outsider
 		}
 	}
+	h.doClose(signer, id)
+}
+
+func (h *hist) doClose(signer sdk.AccAddress, id uint64) {
+	w := h.w
 	msg := &margintypes.MsgClose{Signer: signer.String(), Id: id}
 	if msg.ValidateBasic() != nil {
 		return
@@ -494,6 +504,21 @@ func (h *hist) opPriceMove() {
 	h.observe("clp." + cls)
 }
 
+func (h *hist) doSwap(sent, recv string, amt *big.Int) {
+	w := h.w
+	res := w.Tx(func(ctx sdk.Context) error {
+		_, err := w.csrv.Swap(sdk.WrapSDKContext(ctx), &clptypes.MsgSwap{Signer: h.lp.String(), SentAsset: &clptypes.Asset{Symbol: sent}, ReceivedAsset: &clptypes.Asset{Symbol: recv},
+			SentAmount: sdk.NewUintFromBigInt(amt), MinReceivingAmount: sdk.ZeroUint()})
+		return err
+	})
+	h.out.Hist["clp.swap."+res]++
+	for _, d := range w.denoms[1:] {
+		h.syncPool(d)
+	}
+	h.syncBal(w.ModuleAddr(clptypes.ModuleName))
+	h.observe("clp.swap")
+}
+
 func (h *hist) opParams() {
 	w, rng := h.w, h.rng
 	p := w.app.MarginKeeper.GetParams(w.ctx)
@@ -518,9 +543,85 @@ func (h *hist) opParams() {
 		p.IncrementalInterestPaymentFundPercentage = h.decChoice("0.1", "0", "1")
 		p.ForceCloseFundPercentage = h.decChoice("0.1", "0", "1")
 	}
-	h.adminParams(&p)
+	h.setParams(&p)
+}
+
+func (h *hist) setParams(p *margintypes.Params) {
+	h.adminParams(p)
 	h.emitParams()
 	h.out.Hist["params"]++
+}
+
+// directed histories: the configurations in which the three defects of the pinned tree fire
+// (F14 failed interest fund transfer in the hook and in a mid-epoch Close; F14b failed liquidation
+// after TakeOutCustody; F14c a position between two non-native assets), so that a regression of a
+// repair is found on every run and not only when the random generator happens to get there
+func (h *hist) directed(kind int) {
+	w := h.w
+	k := w.app.MarginKeeper
+	p := k.GetParams(w.ctx)
+	p.LeverageMax = sdk.NewDec(2)
+	p.SafetyFactor = sdk.MustNewDecFromStr("1.05")
+	p.InterestRateMin = sdk.MustNewDecFromStr("0.005")
+	p.InterestRateMax = sdk.NewDec(3)
+	p.EpochLength = 2
+	p.IncrementalInterestPaymentEnabled = true
+	p.IncrementalInterestPaymentFundPercentage = sdk.MustNewDecFromStr("0.1")
+	p.ForceCloseFundPercentage = sdk.MustNewDecFromStr("0.1")
+	p.MaxOpenPositions = 10000
+	p.RowanCollateralEnabled = true
+	h.setParams(&p)
+	for !h.opBlock() { // to an epoch boundary: pool health and rate are set
+	}
+	t := h.traders[0]
+	amt := func(sym string, native bool) *big.Int { return new(big.Int).Quo(h.poolDepth(sym, native), big.NewInt(1000)) }
+	switch kind {
+	case 0: // F14 in the hook
+		h.doOpen(t, "rowan", "cusdc", amt("cusdc", true), margintypes.Position_LONG, sdk.NewDec(2))
+		h.doOpen(h.traders[1], "ceth", "rowan", amt("ceth", false), margintypes.Position_LONG, sdk.NewDec(2))
+		p.IncrementalInterestPaymentFundAddress = h.blocked.String()
+		h.setParams(&p)
+		for !h.opBlock() {
+		}
+	case 1: // F14 in a Close in mid-epoch
+		h.doOpen(t, "rowan", "cusdc", amt("cusdc", true), margintypes.Position_LONG, sdk.NewDec(2))
+		p.IncrementalInterestPaymentFundAddress = h.blocked.String()
+		h.setParams(&p)
+		for h.opBlock() {
+		}
+		h.doClose(t, k.GetMTPCount(w.ctx))
+	case 2: // F14b: liquidation with a refused fund transfer in Repay
+		h.doOpen(t, "rowan", "cusdc", amt("cusdc", true), margintypes.Position_LONG, sdk.NewDec(2))
+		h.doOpen(h.traders[1], "cusdc", "rowan", amt("cusdc", false), margintypes.Position_LONG, sdk.MustNewDecFromStr("1.5"))
+		p.ForceCloseFundAddress = h.blocked.String()
+		p.SafetyFactor = sdk.NewDec(100) // what AdminCloseAll sets
+		h.setParams(&p)
+		for !h.opBlock() {
+		}
+	case 3: // F14c: a position between two non-native assets, and a regular one in the second pool
+		// (its nonsensical valuation passes the health test only if the pool holds more external than native asset)
+		for i := 0; i < 3 && h.poolDepth("cusdc", false).Cmp(h.poolDepth("cusdc", true)) < 0; i++ {
+			h.doSwap("cusdc", "rowan", new(big.Int).Mul(h.poolDepth("cusdc", false), big.NewInt(3)))
+		}
+		h.doOpen(t, "cusdc", "ceth", amt("cusdc", false), margintypes.Position_LONG, sdk.MustNewDecFromStr("1.5"))
+		h.doOpen(h.traders[1], "rowan", "ceth", amt("ceth", true), margintypes.Position_LONG, sdk.NewDec(2))
+		h.doOpen(h.traders[2], "ceth", "ceth", amt("ceth", false), margintypes.Position_LONG, sdk.NewDec(2))
+		for !h.opBlock() {
+		}
+		for !h.opBlock() {
+		}
+	case 4: // liquidation of a position whose custody the interest has eaten down to dust
+		p.InterestRateMax = sdk.NewDec(3)
+		p.InterestRateMin = sdk.MustNewDecFromStr("0.99")
+		p.SafetyFactor = sdk.MustNewDecFromStr("1.9")
+		h.setParams(&p)
+		h.doOpen(t, "rowan", "cusdc", big.NewInt(100000), margintypes.Position_LONG, sdk.NewDec(2))
+		h.doOpen(h.traders[1], "cusdc", "rowan", big.NewInt(100000), margintypes.Position_LONG, sdk.NewDec(2))
+		for i := 0; i < 6; i++ {
+			h.opBlock()
+		}
+	}
+	h.out.Hist[fmt.Sprintf("directed.%d", kind)]++
 }
 
 // next block: margin BeginBlocker.  At an epoch boundary the loop of BeginBlocker is first replayed
@@ -617,10 +718,17 @@ func init() {
 	families["margin"] = func(rng *Rng, n int, out *Out, replay string) {
 		w := NewWorld([]string{"rowan", "cusdc", "ceth"})
 		base := w.ctx
+		nhist := 0
 		for out.N < n {
 			w.ctx, _ = base.CacheContext()
 			h := &hist{w: w, out: out, rng: rng}
 			h.setup()
+			if nhist < 5 {
+				h.directed(nhist)
+				nhist++
+				continue
+			}
+			nhist++
 			steps := 30 + rng.Intn(60)
 			flagged := false
 			for s := 0; (s < steps || flagged) && s < steps+40 && out.N < n; s++ {
